@@ -102,6 +102,14 @@ def fit(ty, v):
     raise ValueError(ty)
 
 
+def strkey(s):
+    """Strings are ordered by character code (code page 437)."""
+    try:
+        return s.encode('cp437')
+    except UnicodeEncodeError:
+        return s.encode('utf-8', 'replace')
+
+
 def default(ty):
     return '' if ty == '$' else (0 if ty in '%&' else 0.0)
 
@@ -387,6 +395,8 @@ class Interp:
             if ta != '$':
                 w = ta if RANK[ta] >= RANK[tb] else tb
                 va, vb = fit(w, va), fit(w, vb)
+            else:
+                va, vb = strkey(va), strkey(vb)
             r = {'=': va == vb, '<>': va != vb, '<': va < vb, '>': va > vb,
                  '<=': va <= vb, '>=': va >= vb}[op]
             return '%', -1 if r else 0
@@ -1057,7 +1067,7 @@ class Interp:
             if (t == '$') != (t2 == '$'):
                 raise Inconclusive('mixed SELECT')
             if t == '$':
-                return v, v2
+                return strkey(v), strkey(v2)
             w = t if RANK[t] >= RANK[t2] else t2
             return fit(w, v), fit(w, v2)
 
